@@ -54,7 +54,8 @@ REQUIRED = ('range_forms_checked', 'range_plus_forms', 'range_interval_forms',
             'engine_showdowns_compared', 'partial_deals_checked',
             'icm_vectors_checked', 'icm_reference_compared',
             'dead_combination_deals', 'rank_order_passes',
-            'convergence_checks', 'call_form_variants')
+            'convergence_checks', 'call_form_variants',
+            'sampled_deals_inspected')
 
 STD = '23456789TJQKA'
 SUITS = 'cdhs'
@@ -463,6 +464,48 @@ def check_convergence(res, rng):
     exact = [float(t / count) for t in total]
     ranges = [[tuple(kh)] if i == victim else [tuple(h)]
               for i, h in enumerate(holes)]
+    # a spy at the evaluator boundary: every sample must be a DEAL -- the
+    # cards the players and the board hold are pairwise distinct and
+    # contain the known cards
+    calls = []
+    spies = []
+    for ht in hand_types:
+        def make(base):
+            class Spy(base):
+                @classmethod
+                def from_game_or_none(cls, hole_cards, board_cards=()):
+                    hc, bc = tuple(hole_cards), tuple(board_cards)
+                    calls.append((hc, bc))
+                    return base.from_game_or_none(hc, bc)
+            Spy.__name__ = base.__name__
+            return Spy
+        spies.append(make(ht))
+    try:
+        calculate_equities(ranges, kb, hole_n, board_n, Deck[deck],
+                           tuple(spies), sample_count=40)
+    except Exception as exc:   # noqa: BLE001
+        res.violation(f'calculate_equities raised {type(exc).__name__}: '
+                      f'{exc} with spying hand types', {'kind': 'spy'})
+        return
+    per = n * len(hand_types)
+    for g in range(0, len(calls) - per + 1, per):
+        grp = calls[g:g + n]
+        cards_seen = [c for hc, _ in grp for c in hc] + list(grp[0][1])
+        res.counters['sampled_deals_inspected'] += 1
+        if len(set(cards_seen)) != len(cards_seen) or any(
+                len(hc) != hole_n for hc, _ in grp) or \
+                len(grp[0][1]) != board_n:
+            dup = sorted({repr(c) for c in cards_seen
+                          if cards_seen.count(c) > 1})
+            res.violation(
+                f'a sampled deal is not a deal: holes '
+                f'{[text(hc) for hc, _ in grp]} board {text(grp[0][1])} '
+                f'(duplicated {dup}) for ranges '
+                f'{[[text(c) for c in r] for r in ranges]} board '
+                f'{text(kb)}', {'kind': 'spy', 'ranges': [
+                    [text(c) for c in r] for r in ranges],
+                    'board': text(kb)})
+            return
     N = 300
     payload = {'kind': 'convergence', 'hand_types': list(hts),
                'ranges': [[text(c) for c in r] for r in ranges],
